@@ -85,6 +85,10 @@ func c08R2(p *Prog, r *Report) {
 		}
 		states := fc.LockStates(fmt.Sprintf("%p.mu", recv), entry)
 		ord := map[string]int{}
+		// both live stores follow: a function that mutates one of the manager's stores mutates
+		// every store the manager has — for each store field, every path through the function
+		// passes the mutation of that store or the edge on which the field is nil
+		c08BothStores(p, r, rule, fc)
 		for _, cs := range fc.AllCalls() {
 			if cs.Fn == nil {
 				continue
@@ -871,4 +875,77 @@ func recvNamed(fc *FuncCtx) types.Type {
 		return nil
 	}
 	return recvTypeOf(fc.Obj)
+}
+
+// c08BothStores: see the call site in c08R2.
+func c08BothStores(p *Prog, r *Report, rule string, fc *FuncCtx) {
+	info := fc.Info()
+	recv := fc.RecvObj()
+	mutOf := map[string][]int{} // store field -> vertices of mutation calls on it
+	any := false
+	for _, cs := range fc.AllCalls() {
+		if cs.Fn == nil || namedTypeName(recvTypeOf(cs.Fn)) != "CredStore" || (cs.Fn.Name() != "UpdateUserLookupMap" && cs.Fn.Name() != "ReplaceUserLookupMap") {
+			continue
+		}
+		sel, ok := ast.Unparen(cs.Call.Fun).(*ast.SelectorExpr)
+		if !ok {
+			continue
+		}
+		if fs, ok := ast.Unparen(sel.X).(*ast.SelectorExpr); ok && objOf(info, fs.X) == recv {
+			mutOf[fs.Sel.Name] = append(mutOf[fs.Sel.Name], cs.V)
+			any = true
+		}
+	}
+	if !any {
+		return
+	}
+	// the manager's store fields: fields whose type is *ss2022.CredStore
+	st, _ := recv.Type().Underlying().(*types.Pointer)
+	if st == nil {
+		return
+	}
+	strct, _ := st.Elem().Underlying().(*types.Struct)
+	if strct == nil {
+		return
+	}
+	for i := 0; i < strct.NumFields(); i++ {
+		f := strct.Field(i)
+		if namedTypeName(f.Type()) != "CredStore" {
+			continue
+		}
+		isMut := map[int]bool{}
+		for _, v := range mutOf[f.Name()] {
+			isMut[v] = true
+		}
+		nilE := map[Edge]bool{}
+		for _, e := range fc.TestEdges(func(e ast.Expr) bool {
+			s2, ok := ast.Unparen(e).(*ast.SelectorExpr)
+			return ok && s2.Sel.Name == f.Name() && objOf(info, s2.X) == recv
+		}, WantNil) {
+			nilE[e] = true
+		}
+		// paths that change some other store without having handled this one …
+		avoid := fc.G.Reach([]int{fc.G.Entry}, func(v *Vertex) bool { return isMut[v.ID] }, func(e Edge) bool { return nilE[e] })
+		around := fc.G.newSet()
+		for of, vs := range mutOf {
+			if of == f.Name() {
+				continue
+			}
+			for _, m := range vs {
+				if !avoid[m] {
+					continue
+				}
+				// … and can then end without handling it either
+				rest := fc.G.ReachAfter(m, func(v *Vertex) bool { return isMut[v.ID] }, func(e Edge) bool { return nilE[e] })
+				if rest[fc.G.Exit] {
+					around[fc.G.Exit] = true
+				}
+			}
+		}
+		if len(mutOf) == 1 && len(mutOf[f.Name()]) == 0 {
+			// the function changes one store and never mentions this one
+			around[fc.G.Exit] = true
+		}
+		r.Check(!around[fc.G.Exit], rule, fc.Name+":mutates-store:"+f.Name(), p.posStr(fc.Body.Pos()), "every path mutates the "+f.Name()+" store or finds it nil", "a path through "+fc.Name+" changes one live store and leaves the "+f.Name()+" store (non-nil) unchanged: on servers with both transports a key added, rotated or deleted through the API is honoured by one transport only")
+	}
 }
